@@ -30,7 +30,7 @@ func init() {
 		Assumptions: []string{"proto.Marshal/proto.Equal of golang/protobuf are trusted for the real protobuf messages",
 			"versions are <= 16 bytes and not NUL-terminated (stated domain)"},
 		Flavours: releaseThenGo126,
-		Required: []string{"kind/legacy", "kind/legacy+version", "kind/BytesValue", "kind/StringValue", "kind/BytesValue+version",
+		Required: []string{"long-run/calls>=100000-per-function", "kind/legacy", "kind/legacy+version", "kind/BytesValue", "kind/StringValue", "kind/BytesValue+version",
 			"body/0", "body/1", "body/70000", "ver/len=0", "ver/len=16", "ver/interior-NUL", "chunk/whole", "chunk/one-byte", "chunk/random", "chunk/data+EOF", "chunk/zero-reads",
 			"stream/frames=1", "stream/frames>=4", "stream/eof-after-last", "target/reused", "target/reused-for-empty-body", "stream/frame>1MiB-followed-by-frames", "reader/std-type", "writer/std-type", "concurrent/own-writers-and-readers", "legacy/marshal-returns-own-slice", "reader/has-Len-meaning-buffered-now", "marshal/rejected-message-then-valid-one"},
 		Families: func(c *mon.Config) []mon.Family {
@@ -46,6 +46,7 @@ func init() {
 				{Name: "reused-target", Env: 5, N: pbNKinds * chNModes * c.Pick(10, 2000), Run: c06Reuse},
 				{Name: "concurrent-calls", Env: 3, N: c.Pick(300, 30000), Run: c06Concurrent},
 				{Name: "big-body-streams", Env: 2, N: pbNKinds * 3 * 4 * c.Pick(1, 6), Run: c06BigStreams},
+				lrFamily(c06LongRun),
 			}
 		},
 	})
